@@ -128,8 +128,12 @@ Definition b_set (b : bset) (u : Z) : option bset :=
        else Some (mkb (u + 1) (zset (pad_to (bbits b) (64 * nw)) u true)).
 
 (* sync_bitfield.go:94 SetAll(true): bits below b.length *)
-Definition b_setall (b : bset) : bset :=
-  mkb (blen b) (map (fun '(i, x) => if i <? blen b then true else x) (combine (zrange (zlen (bbits b))) (bbits b))).
+Fixpoint setall_from (k l : Z) (bs : list bool) : list bool :=
+  match bs with
+  | [] => []
+  | b :: t => (if k <? l then true else b) :: setall_from (k + 1) l t
+  end.
+Definition b_setall (b : bset) : bset := mkb (blen b) (setall_from 0 (blen b) (bbits b)).
 
 (* a bitfield as an honest peer sends it for n pieces *)
 Definition clean (n : Z) (b : bset) : bool :=
@@ -251,7 +255,8 @@ Inductive bfres := BPanic | BReject (es : list eff) | BOk (es : list eff) (b : b
 
 (* handshaker.go unmarshalBitfield (guard) + bitset.go:799 ReadFrom: New(L) allocates wordsNeeded(L) words
    (a makeslice panic is recovered by New and ends in "type mismatch"), binary.Read allocates as many bytes
-   again and fails when fewer arrive. *)
+   again and fails when fewer arrive.  (ws holds the db/8 complete words, so firstn yields nw words whenever
+   8*nw <= db; pad_to only makes the length independent of that relation.) *)
 Definition parse_bf (g : guards) (r : rawbf) : bfres :=
   match r with
   | None => BReject []
@@ -261,7 +266,7 @@ Definition parse_bf (g : guards) (r : rawbf) : bfres :=
            if max_alloc <? 8 * nw then BReject []
            else if nw =? 0 then BOk [EAlloc 0] (mkb L [])
            else if db <? 8 * nw then BReject [EAlloc (8 * nw); EAlloc (8 * nw)]
-           else BOk [EAlloc (8 * nw); EAlloc (8 * nw)] (mkb L (bits_of_words (firstn (Z.to_nat nw) ws)))
+           else BOk [EAlloc (8 * nw); EAlloc (8 * nw)] (mkb L (pad_to (bits_of_words (firstn (Z.to_nat nw) ws)) (64 * nw)))
   end.
 
 Fixpoint parse_rbs (g : guards) (rs : list (bool * rawbf)) (es : list eff) : option (list eff * bool) :=
@@ -679,10 +684,13 @@ Definition obs_eqb (a b : obs) : bool :=
 
 (* ------------------------------------------------------------------ the oracle: the property on one observed trace.
    Independent of the model's outputs: it looks only at the torrent, at what was sent and at what was observed. *)
+(* (vm_compute is call-by-value: the expensive part sits under an [if]) *)
 Definition hs_clean_bits (t : torrent) (h : hshake) : bool :=
   match h_bf h with
-  | Some (L, ws, db) => (L =? t_n t) && (8 * ((L + 63) / 64) <=? db) &&
-                        forallb (fun i => i <? t_n t) (set_from 0 (bits_of_words (firstn (Z.to_nat ((L + 63) / 64)) ws)))
+  | Some (L, ws, db) =>
+      if (L =? t_n t) && (8 * ((L + 63) / 64) <=? db)
+      then forallb (fun i => i <? t_n t) (set_from 0 (bits_of_words (firstn (Z.to_nat ((L + 63) / 64)) ws)))
+      else false
   | None => false
   end.
 
@@ -690,7 +698,7 @@ Definition C14_check (t : torrent) (have : list bool) (bfull : bool) (h : hshake
   (* never panics, never exhausts memory, no allocation beyond the bound *)
   (o_crash o =? 0) && negb (o_big o) &&
   (* a handshake is accepted only with a bitfield that fits the torrent *)
-  ((o_hs o <? 3) || hs_clean_bits t h) &&
+  (if o_hs o <? 3 then true else hs_clean_bits t h) &&
   (* everything the peer sends refers to pieces of the torrent: index in range, length = that piece's length, right bytes *)
   forallb (reply_ok t) (o_ainit o) && forallb (reply_ok t) (o_binit o) &&
   forallb (fun '(ra, rb, _) => forallb (reply_ok t) ra && forallb (reply_ok t) rb) (o_steps o) &&
